@@ -171,3 +171,10 @@ Qed.
 (* recycled buffers never leak bytes: the response does not depend on what the pooled buffer held *)
 Theorem pool_clean minlen p1 p2 cl ops : request minlen p1 cl ops = request minlen p2 cl ops.
 Proof. reflexivity. Qed.
+
+(* ---------- Decompress *)
+Lemma decompress_untouched sent gunzip : decompress false sent gunzip = Some sent.
+Proof. reflexivity. Qed.
+Lemma decompress_gzip sent gunzip : sent <> [] -> decompress true sent gunzip = gunzip sent.
+Proof. intro H. unfold decompress. destruct sent; [congruence|reflexivity]. Qed.
+
